@@ -15,6 +15,8 @@ func seqSpecsFor(id, tier string) []*SeqSpec {
 	switch id {
 	case "C06":
 		return []*SeqSpec{specC06(tier), specC06glob(tier)}
+	case "C10":
+		return []*SeqSpec{specC10(tier, 0), specC10(tier, 1), specC10(tier, 2)}
 	}
 	if sp := seqSpecFor(id, tier); sp != nil {
 		return []*SeqSpec{sp}
@@ -26,6 +28,16 @@ func seqSpecFor(id, tier string) *SeqSpec {
 	switch id {
 	case "C06#glob":
 		return specC06glob(tier)
+	case "C09":
+		return specC09(tier)
+	case "C10":
+		return specC10(tier, 0)
+	case "C10#inmulti":
+		return specC10(tier, 1)
+	case "C10#db1":
+		return specC10(tier, 2)
+	case "C14":
+		return specC14(tier)
 	case "C06":
 		return specC06(tier)
 	case "C07":
